@@ -936,8 +936,11 @@ pub fn run(args: &Args, rec: &mut Recorder) {
             match load_str(&merged_text, false) {
                 Ok(Ok((m3, _))) => {
                     // the expanded A2ML text is compared modulo whitespace
+                    // (both comparisons modulo the order of RESERVED items that are not in position
+                    // order in the input: writing permutes them, which is C01's known finding)
                     let squeeze = |f: &a2lfile::A2lFile| {
                         let mut f = f.clone();
+                        crate::c01::normalise_reserved(&mut f);
                         for module in f.project.module.iter_mut() {
                             if let Some(a) = &mut module.a2ml {
                                 a.a2ml_text = a.a2ml_text.split_whitespace().collect::<Vec<_>>().join(" ");
@@ -948,11 +951,16 @@ pub fn run(args: &Args, rec: &mut Recorder) {
                     if a2ml_inc.is_some() && squeeze(&m3) != squeeze(&reference.0) {
                         rec.violation(
                             "merge_includes() output differs from the flattened text (A2ML include)",
-                            &crate::c01::model_diff(&reference.0, &m3),
+                            &crate::c01::model_diff(&squeeze(&reference.0), &squeeze(&m3)),
                             witness(&w, &note),
                         );
                     }
-                    if a2ml_inc.is_none() && m3 != m {
+                    let modulo_reserved = |f: &a2lfile::A2lFile| {
+                        let mut f = f.clone();
+                        crate::c01::normalise_reserved(&mut f);
+                        f
+                    };
+                    if a2ml_inc.is_none() && m3 != m && modulo_reserved(&m3) != modulo_reserved(&m) {
                         rec.violation(
                             "model of the merge_includes() output differs",
                             &crate::c01::model_diff(&m, &m3),
